@@ -20,7 +20,8 @@ RULE = ("Cases: centred unit-variance X (tall/wide/square, 30% rank-deficient), 
         "X; optimal value of the mixed objective by the Ky-Fan bound trace(K~) - sum of its top-k eigenvalues, and 12 "
         "(thorough: 30) competitor k-frames per case (random, PCA's, leading frame of [Yhat,X], perturbations of PCovR's own "
         "frame at scales 1e-1..1e-3).  Non-trivial: 0 < mixing < 1, k below the rank of K~, both loss terms > 1e-6; "
-        "distinct = SHA-1 of the canonical case.")
+        "distinct = SHA-1 of the canonical case.  A quarter of the cases carry a second, small data set with nearly collinear features "
+        "(condition number 1e7..1e9) for the precomputed-regression route in sample space.")
 ASSUMPTIONS = [
     "objective values are compared with tolerance 1e-8 x max(objective, 1); losses along the mixing grid with 1e-7 x max(1, |X|^2)",
     "coordinate comparisons with PCA are made per component only where its eigenvalue is separated by a relative gap > 1e-6",
@@ -36,7 +37,16 @@ def strategy_(draw, tier):
     k = draw(st.integers(1, min(n, m)))
     grid = sorted(set(draw(st.lists(st.sampled_from([0.0, 0.05, 0.1, 0.25, 0.4, 0.5, 0.6, 0.75, 0.9, 0.95, 1.0]),
                                     min_size=3, max_size=6))))
-    return {"shape": d["shape"], "lowrank": d["lowrank"], "X": X, "Y": Y, "k": k,
+    ill = None
+    if draw(st.integers(0, 3)) == 0:
+        # nearly (not exactly) collinear features, condition number 1e7..1e9: still full rank for every documented cut-off
+        ni, mi = draw(st.integers(4, 14)), draw(st.integers(3, 14))
+        Xi = gen.normal(draw, (ni, mi))
+        Xi[:, -1] = Xi[:, 0] - 0.5 * Xi[:, 1] + draw(st.sampled_from([1e-7, 1e-8])) * gen.normal(draw, (ni,))
+        Xi = pc.centre_norm(Xi)
+        Yi = pc.centre_norm(Xi @ gen.normal(draw, (mi, draw(st.integers(1, 2)))) + 0.5 * gen.normal(draw, (ni, 1)))
+        ill = {"X": Xi, "Y": Yi}
+    return {"shape": d["shape"], "lowrank": d["lowrank"], "X": X, "Y": Y, "k": k, "ill": ill,
             "space": draw(st.sampled_from(["feature", "sample"])),
             "alpha": draw(st.sampled_from([1e-6, 1e-2, 1.0])),
             "mixing": draw(st.sampled_from([0.0, 0.1, 0.3, 0.5, 0.7, 0.9, 1.0])),
@@ -63,7 +73,36 @@ def losses(Q, X, Yhat):
     return float((PX ** 2).sum()), float((PY ** 2).sum())
 
 
+def near_collinear_precomputed(case, ctx):
+    """Precomputed regression (Yhat given, weights derived by the estimator) on nearly collinear features, sample-space route: every
+    direction of X lies far above the documented relative cut-off 1e-12, so the regression limit and the spectrum of the latent
+    coordinates must still hold (tolerance 1e-5: the weights are of size 1/sigma_min)."""
+    X, Y = case["ill"]["X"], case["ill"]["Y"]
+    n, m = X.shape
+    s = np.linalg.svd(X, compute_uv=False)
+    r = int((s > 1e-11 * s[0]).sum())
+    if r < min(n - 1, m) or s[r - 1] < 1e-10 * s[0]:
+        ctx.skip("near-collinear: a singular value too close to the cut-off")
+        return
+    U = np.linalg.svd(X, full_matrices=False)[0][:, :r]
+    Yhat = U @ (U.T @ Y)                       # least-squares fit of Y on the span of X
+    ry = int(np.linalg.matrix_rank(Yhat))
+    ctx.cls("near_collinear")
+    with ctx.lib("fit(near-collinear, precomputed)"):
+        p0 = PCovR(mixing=0.0, n_components=min(min(n, m), ry), space="sample", regressor="precomputed", svd_solver="full").fit(X, Yhat)
+        pr = np.asarray(p0.predict(X)).reshape(n, -1)
+        p5 = PCovR(mixing=0.5, n_components=min(2, min(n, m)), space="sample", regressor="precomputed", svd_solver="full").fit(X, Yhat)
+        T = p5.transform(X)
+    ctx.close("regression-limit(near-collinear)", pr, Yhat, 1e-5 * max(1.0, np.abs(Yhat).max()), "mixing=0 predictions vs the given regression (sample space, precomputed)")
+    w, _ = pc.ktilde_eig(X, Yhat, 0.5)
+    kk = T.shape[1]
+    ctx.close("latent-spectrum(near-collinear)", np.sort(np.diag(T.T @ T))[::-1], w[:kk], 1e-5 * w[0], "squared norms of the latent coordinates vs eigenvalues of K~")
+    ctx.count("near_collinear_checked")
+
+
 def check(case, ctx):
+    if case.get("ill") is not None:
+        near_collinear_precomputed(case, ctx)
     X, Y, k, space, a = case["X"], case["Y"], case["k"], case["space"], case["alpha"]
     n, m = X.shape
     ctx.cls("shape=" + case["shape"], "lowrank=%s" % case["lowrank"], "space=" + space, "mixing=%g" % case["mixing"])
